@@ -1,4 +1,4 @@
-CONSTANTS Names = {"a","b"}  Sals = {0, 5}
+CONSTANTS Names = {"a","b"}  Sals = {0, 5}  Batches <- NoBatches
 INIT Init
 NEXT Next
 VIEW View
